@@ -169,6 +169,12 @@ def run(ctx, chk):
         chk.require(as_error, "C17-a/overflow-is-error", inst,
                     "a failed checked operation is not turned into an error return", "ok_or(..)? / None => return Err", dec.sp())
     chk.floor("BCD decoders", n_bcd, 5)
+    n_enc = 0
+    for T in INTS:
+        enc, _dec = find(crates, "zvt_builder::encoding::Bcd", T)
+        if enc is None:
+            continue
+        n_enc += bcd_encoder_exhausts(chk, enc, T)
     # (b) + (e): pairing via the C01 machinery restricted to scalar/text encodings
     n_pairs = 0
     for E, flavour in (("zvt_builder::encoding::Default", "le"), ("zvt_builder::encoding::BigEndian", "be")):
@@ -197,6 +203,81 @@ def run(ctx, chk):
     text(chk, crates)
     tags(chk, crates)
     sentinel(chk, crates)
+
+
+def bcd_encoder_exhausts(chk, enc, T):
+    """A BCD encoder that peels digits off a running value `k` (`k /= 10`) in a loop may stop only when `k == 0`: any
+    other way out of the loop (a fixed number of positions used up, a counter) leaves the leading digits unwritten for
+    values that need more positions - silently, since nothing fails.  -> number of loops judged (0 = another shape)."""
+    vx = VEx(enc)
+    loops = enc.natural_loops()
+    n = 0
+    for h, blks in sorted(loops.items()):
+        # the running value: a local that the loop divides by a constant and stores back
+        ks = set()
+        for i in blks:
+            for st in enc.blocks[i]["stmts"]:
+                if st["s"] == "assign" and not st["p"]["p"] and st["rv"]["r"] == "bin" and st["rv"]["op"] == "Div":
+                    pa = op_place(st["rv"]["a"])
+                    if pa is not None and not pa["p"] and "k" in st["rv"]["b"]:
+                        src = pa["l"]
+                        # `k = k / 10` directly, or through a temporary copied from k in the same loop
+                        hops = 0
+                        while src != st["p"]["l"] and hops < 3:
+                            ds = [d for d in enc.defs.get(src, []) if d[0] in blks and d[2] == "assign" and d[3]["rv"]["r"] == "use"]
+                            if len(ds) != 1 or op_place(ds[0][3]["rv"]["o"]) is None:
+                                break
+                            src = op_place(ds[0][3]["rv"]["o"])["l"]
+                            hops += 1
+                        if src == st["p"]["l"]:
+                            ks.add(src)
+        if not ks:
+            continue
+        n += 1
+        exits = sorted({(x, y) for x in blks for y in enc.succ[x] if y not in blks and enc.blocks[y]["term"]["t"] != "unreachable"})
+        bad = []
+        for x, y in exits:
+            t = enc.blocks[x]["term"]
+            ok = False
+            if t["t"] == "switch":
+                e = strip_ref(vx.operand(t["d"], x))
+                if e[0] == "bin" and e[1] in ("Eq", "Ne"):
+                    a, b = strip_ref(e[2]), strip_ref(e[3])
+                    if a[0] == "const":
+                        a, b = b, a
+                    is_k = a[0] in ("var", "path") and any(enc.local_name(k_) == a[1] or "_%d" % k_ == a[1] for k_ in ks) and \
+                        not (a[0] == "path" and a[2])
+                    if is_k and b == ("const", 0):
+                        zero_target = [tb for v_, tb in t["targets"] if v_ == 0]
+                        # Eq: value 0 = false -> k != 0; else = true -> k == 0.   Ne: value 0 = false -> k == 0
+                        k_zero_edge = t["else"] if e[1] == "Eq" else (zero_target[0] if zero_target else None)
+                        ok = (y == k_zero_edge)
+            if not ok and t["t"] == "switch":
+                # ... or the loop runs over the N positions of a fixed buffer, divides k by c on every trip, and c^N exceeds
+                # the largest value of the type: after N trips k is 0 whatever it was
+                pb = [p_ for p_ in enc.pred[x] if p_ in blks]
+                nt = enc.blocks[pb[0]]["term"] if len(pb) == 1 else None
+                if nt is not None and nt["t"] == "call" and callee(nt) == "core::iter::traits::iterator::Iterator::next" and nt["to"] == x:
+                    import re
+                    import contracts as _c
+                    lens = {int(m.group(1)) for l_ in enc.locals for m in [re.match(r"^\[u8; (\d+)\]$", ty_str(l_.get("ty")) or "")] if m}
+                    divs = {}
+                    for i in blks:
+                        for st in enc.blocks[i]["stmts"]:
+                            if st["s"] == "assign" and not st["p"]["p"] and st["p"]["l"] in ks and st["rv"]["r"] == "bin" and \
+                                    st["rv"]["op"] == "Div" and "k" in st["rv"]["b"] and isinstance(st["rv"]["b"]["k"].get("v"), int):
+                                divs.setdefault(i, st["rv"]["b"]["k"]["v"])
+                    bits = {"u8": 8, "u16": 16, "u32": 32, "u64": 64, "usize": 64, "u128": 128}.get(T)
+                    if len(lens) == 1 and divs and bits and _c.cycles_broken_by(enc, h, blks, set(divs)):
+                        c = min(divs.values())
+                        ok = c >= 2 and c ** list(lens)[0] > 2 ** bits - 1
+            if not ok:
+                bad.append(x)
+        chk.require(not bad, "C17-a/encoder-exhausts-value", "<Bcd as Encoding<%s>>::encode" % T,
+                    "the digit loop can be left from bb%s without the running value having reached 0: values with more digits "
+                    "than the loop has positions lose their leading digits silently" % bad, "only exit: k == 0",
+                    (enc.blocks[bad[0]]["term"].get("sp") if bad else None) or enc.sp())
+    return n
 
 
 STR_ALTERING = ("trim", "trim_start", "trim_end", "trim_matches", "trim_start_matches", "trim_end_matches", "trim_left", "trim_right",
